@@ -826,16 +826,13 @@ func sbGen(g *Gen) {
 		for _, s := range sbDangerNames {
 			danger[s] = true
 		}
-		for _, s := range strings.Split(os.Getenv("ZYH_SB_SPECIALS"), ",") {
-			danger[s] = true
-		}
 		for _, n := range first {
 			danger[n] = true
 		}
 		if c == "cli" {
 			// the command line tool costs a process per session: all names go through REPL
-			// sessions of 40 names each; names of outside-world functions, special forms and
-			// path candidates (quick) or all names (thorough) are also probed one by one
+			// sessions of 40 names each; names of outside-world functions and path candidates
+			// (quick) or all names (thorough) are also probed one by one, REPL and -c
 			for i := 0; i < len(names); i += 40 {
 				j := i + 40
 				if j > len(names) {
@@ -878,7 +875,7 @@ func sbGen(g *Gen) {
 			nprog = 1500
 		}
 		if c == "cli" {
-			nprog /= 4
+			nprog /= 8
 		}
 		pool := append([]string{}, bound...)
 		for s := range extra {
